@@ -20,9 +20,11 @@ structure LInv (s : St) : Prop where
   ctr : s.inUse = s.evs.countP live
   capb : s.inUse ≤ s.cap
   ev : ∀ (i : Nat) (e : Ev), s.evs[i]? = some e → EvOK e
+  /-- an event being worked on or held keeps a processor on the stream -/
+  att : 0 < s.evs.countP needsProc → s.attached = true
 
 theorem inv_init (cap : Nat) (kinds : List Kind) : LInv (init cap kinds) := by
-  refine ⟨?_, by simp [init], ?_⟩
+  refine ⟨?_, by simp [init], ?_, fun _ => rfl⟩
   · simp only [init, List.countP_map]
     symm; rw [List.countP_eq_zero]; intro k _; simp [live, Function.comp]
   · intro i e h
@@ -31,12 +33,22 @@ theorem inv_init (cap : Nat) (kinds : List Kind) : LInv (init cap kinds) := by
     simp [EvOK]
 
 theorem inv_setEv (s : St) (i : Nat) (e e' : Ev) (iu : Nat) (h : LInv s) (hi : s.evs[i]? = some e)
-    (hok : EvOK e') (hctr : iu + b2n (live e) = s.inUse + b2n (live e')) (hcap : iu ≤ s.cap) :
+    (hok : EvOK e') (hctr : iu + b2n (live e) = s.inUse + b2n (live e')) (hcap : iu ≤ s.cap)
+    (hatt : needsProc e' = true → needsProc e = true ∨ s.attached = true) :
     LInv { s with inUse := iu, evs := s.evs.set i e' } := by
   have c := FileD.Pool.countP_set_of_get live s.evs i e e' hi
+  have cn := FileD.Pool.countP_set_of_get needsProc s.evs i e e' hi
   have h0 := h.ctr
-  refine ⟨?_, hcap, ?_⟩
+  refine ⟨?_, hcap, ?_, ?_⟩
   · simp only [b2n] at *; omega
+  rotate_left
+  · intro hpos
+    simp only [] at hpos ⊢
+    cases hn' : needsProc e'
+    · exact h.att (by simp [hn'] at cn; omega)
+    · rcases hatt hn' with hn | ha
+      · exact h.att (FileD.Pool.countP_pos_of_get needsProc s.evs i e hi hn)
+      · exact ha
   · intro j ej hj
     simp only [] at hj
     by_cases e1 : i = j
@@ -51,17 +63,24 @@ theorem pos_of_live (s : St) (h : LInv s) (i : Nat) (e : Ev) (hi : s.evs[i]? = s
   have := FileD.Pool.countP_pos_of_get live s.evs i e hi hl
   have := h.ctr; omega
 
+/-- the new pc does not need the processor -/
+macro "np_tac" : tactic => `(tactic| (intro hn; simp [needsProc] at hn))
+
 theorem step_inv (s s' : St) (op : Op) (h : LInv s) (hs : step? s op = some s') : LInv s' := by
   have hcap := h.capb
   cases op with
   | finOther => simp [step?] at hs; subst hs; exact h
+  | attachProc => simp [step?] at hs; subst hs; exact ⟨h.ctr, h.capb, h.ev, fun _ => rfl⟩
+  | detachProc =>
+    simp only [step?] at hs; split at hs <;> simp at hs; subst hs; rename_i hz
+    exact ⟨h.ctr, h.capb, h.ev, fun hp => by simp only [] at hp; omega⟩
   | get i =>
     simp only [step?] at hs; split at hs
     · rename_i e hi
       split at hs <;> simp at hs; subst hs; rename_i hc
       have hok := h.ev i e hi
       exact inv_setEv s i e _ _ h hi (by simp [EvOK, hc.1] at hok ⊢; exact hok)
-        (by simp [b2n, live, hc.1]) (by simp only []; omega)
+        (by simp [b2n, live, hc.1]) (by simp only []; omega) (by np_tac)
     · simp at hs
   | decodeErr i =>
     simp only [step?] at hs; split at hs
@@ -70,7 +89,7 @@ theorem step_inv (s s' : St) (op : Op) (h : LInv s) (hs : step? s op = some s') 
       have hok := h.ev i e hi
       have := pos_of_live s h i e hi (by simp [live, hc.1])
       exact inv_setEv s i e _ _ h hi (by simp [EvOK, hc.1] at hok ⊢; simp [hok, hc.2, expectedFins])
-        (by simp [b2n, live, hc.1]; omega) (by simp only []; omega)
+        (by simp [b2n, live, hc.1]; omega) (by simp only []; omega) (by np_tac)
     · simp at hs
   | refuse i =>
     simp only [step?] at hs; split at hs
@@ -79,7 +98,7 @@ theorem step_inv (s s' : St) (op : Op) (h : LInv s) (hs : step? s op = some s') 
       have hok := h.ev i e hi
       have := pos_of_live s h i e hi (by simp [live, hc.1])
       exact inv_setEv s i e _ _ h hi (by simp [EvOK, hc.1] at hok ⊢; simp [hok, hc.2, expectedFins])
-        (by simp [b2n, live, hc.1]; omega) (by simp only []; omega)
+        (by simp [b2n, live, hc.1]; omega) (by simp only []; omega) (by np_tac)
     · simp at hs
   | stream i =>
     simp only [step?] at hs; split at hs
@@ -87,15 +106,15 @@ theorem step_inv (s s' : St) (op : Op) (h : LInv s) (hs : step? s op = some s') 
       split at hs <;> simp at hs; subst hs; rename_i hc
       have hok := h.ev i e hi
       exact inv_setEv s i e _ _ h hi (by simp [EvOK, hc.1] at hok ⊢; simp [hok, hc.2])
-        (by simp [b2n, live, hc.1]) hcap
+        (by simp [b2n, live, hc.1]) hcap (by np_tac)
     · simp at hs
   | take i =>
     simp only [step?] at hs; split at hs
     · rename_i e hi
       split at hs <;> simp at hs; subst hs; rename_i hc
       have hok := h.ev i e hi
-      exact inv_setEv s i e _ _ h hi (by simp [EvOK, hc] at hok ⊢; simp [hok])
-        (by simp [b2n, live, hc]) hcap
+      exact inv_setEv s i e _ _ h hi (by simp [EvOK, hc.1] at hok ⊢; simp [hok])
+        (by simp [b2n, live, hc.1]) hcap (fun _ => Or.inr hc.2)
     · simp at hs
   | discard i =>
     simp only [step?] at hs; split at hs
@@ -104,7 +123,7 @@ theorem step_inv (s s' : St) (op : Op) (h : LInv s) (hs : step? s op = some s') 
       have hok := h.ev i e hi
       have := pos_of_live s h i e hi (by simp [live, hc.1])
       exact inv_setEv s i e _ _ h hi (by simp [EvOK, hc.1] at hok ⊢; simp [hok, hc.2, expectedFins])
-        (by simp [b2n, live, hc.1]; omega) (by simp only []; omega)
+        (by simp [b2n, live, hc.1]; omega) (by simp only []; omega) (by np_tac)
     · simp at hs
   | hold i =>
     simp only [step?] at hs; split at hs
@@ -112,15 +131,15 @@ theorem step_inv (s s' : St) (op : Op) (h : LInv s) (hs : step? s op = some s') 
       split at hs <;> simp at hs; subst hs; rename_i hc
       have hok := h.ev i e hi
       exact inv_setEv s i e _ _ h hi (by simp [EvOK, hc.1] at hok ⊢; simp [hok, hc.2])
-        (by simp [b2n, live, hc.1]) hcap
+        (by simp [b2n, live, hc.1]) hcap (fun _ => Or.inl (by simp [needsProc, hc.1]))
     · simp at hs
   | propagate i =>
     simp only [step?] at hs; split at hs
     · rename_i e hi
       split at hs <;> simp at hs; subst hs; rename_i hc
       have hok := h.ev i e hi
-      exact inv_setEv s i e _ _ h hi (by simp [EvOK, hc] at hok ⊢; simp [hok])
-        (by simp [b2n, live, hc]) hcap
+      exact inv_setEv s i e _ _ h hi (by simp [EvOK, hc.1] at hok ⊢; simp [hok])
+        (by simp [b2n, live, hc.1]) hcap (by np_tac)
     · simp at hs
   | spawn i =>
     simp only [step?] at hs; split at hs
@@ -128,7 +147,7 @@ theorem step_inv (s s' : St) (op : Op) (h : LInv s) (hs : step? s op = some s') 
       split at hs <;> simp at hs; subst hs; rename_i hc
       have hok := h.ev i e hi
       exact inv_setEv s i e _ _ h hi (by simp [EvOK, hc.1] at hok ⊢; simp [hok, hc.2])
-        (by simp [b2n, live, hc.1]) hcap
+        (by simp [b2n, live, hc.1]) hcap (by np_tac)
     · simp at hs
   | out i =>
     simp only [step?] at hs; split at hs
@@ -137,10 +156,10 @@ theorem step_inv (s s' : St) (op : Op) (h : LInv s) (hs : step? s op = some s') 
       have hok := h.ev i e hi
       rcases hc with hc | hc
       · exact inv_setEv s i e _ _ h hi (by simp [EvOK, hc.1] at hok ⊢; simp [hok, hc.2])
-          (by simp [b2n, live, hc.1]) hcap
+          (by simp [b2n, live, hc.1]) hcap (by np_tac)
       · exact inv_setEv s i e _ _ h hi
           (by simp [EvOK, hc] at hok ⊢; rcases hok.2 with hk | hk <;> simp [hok.1, hk.1, hk.2])
-          (by simp [b2n, live, hc]) hcap
+          (by simp [b2n, live, hc]) hcap (by np_tac)
     · simp at hs
   | commit i =>
     simp only [step?] at hs; split at hs
@@ -148,7 +167,7 @@ theorem step_inv (s s' : St) (op : Op) (h : LInv s) (hs : step? s op = some s') 
       split at hs <;> simp at hs; subst hs; rename_i hc
       have hok := h.ev i e hi
       have := pos_of_live s h i e hi (by simp [live, hc])
-      refine inv_setEv s i e _ _ h hi ?_ (by simp [b2n, live, hc]; omega) (by simp only []; omega)
+      refine inv_setEv s i e _ _ h hi ?_ (by simp [b2n, live, hc]; omega) (by simp only []; omega) (by np_tac)
       simp [EvOK, hc] at hok ⊢
       rcases hok.2 with hk | hk | hk <;> simp [hok.1, hk.1, hk.2, expectedFins]
     · simp at hs
